@@ -325,6 +325,9 @@ func (c *connection) recv(conn net.Conn, connDone chan bool) {
 func (c *connection) isLive(conn net.Conn) bool {
 	c.connLock.Lock()
 	defer c.connLock.Unlock()
+	if vhook.Enabled {
+		vhook.At("client.send.liveCheck", c.client, conn, !c.isClosed && c.conn == conn)
+	}
 	return !c.isClosed && c.conn == conn
 }
 
